@@ -59,14 +59,14 @@ def pass_tables(ck):
 
 
 def run(ck):
-    ck.rule("R1", "every pass-table entry resolves to a two-parameter function registered under one Expr class", floor=50)
-    ck.rule("R2", "class-specific attributes are read only where the node kind is established on every path", floor=600)
-    ck.rule("R4", "a constant narrowed to S bits is proved to fit in S bits", floor=8)
+    ck.rule("R1", "every pass-table entry resolves to a two-parameter function registered under one Expr class", floor=26)
+    ck.rule("R2", "class-specific attributes are read only where the node kind is established on every path", floor=399)
+    ck.rule("R4", "a constant narrowed to S bits is proved to fit in S bits", floor=5)
     ck.rule("R4b", "an out-of-range guard joining both sides with `or` does not return a single truth value", floor=1)
     ck.rule("R5", "Python-level ** and << on integers taken from expressions are bounded", floor=2)
     ck.rule("R7", "a Python-level sum/product/shift of operand constants re-encoded with ExprInt is not used where wrapping modulo 2^size changes the value (shift/rotate counts, division, comparison)", floor=1)
-    ck.rule("R6", "pass loop stops on class change; enable_passes clears the cache", floor=3)
-    ck.rule("R9", "explicit flag formulas: carry / overflow of a + b, a - b and their with-carry siblings (shared with C03-R5)", floor=8)
+    ck.rule("R6", "pass loop stops on class change; enable_passes clears the cache", floor=1)
+    ck.rule("R9", "explicit flag formulas: carry / overflow of a + b, a - b and their with-carry siblings (shared with C03-R5)", floor=4)
     from rules._composites import flag_formula_rules
     flag_formula_rules(ck, "R9", "miasm/expression/simplifications_explicit.py")
     ck.rule("R8", "two constants fused into one ExprInt are concatenated at the low part's width and the result has the sum of both widths", floor=1)
